@@ -109,8 +109,22 @@ def gen_plan(seed, tier):
     for n in (A, B, C_):
         if rng.random() < 0.65:
             init[n.decode()] = rng.randrange(3)
+    packed = rng.random() < 0.3
+    if rng.random() < 0.15:
+        # every pusher deletes (or moves) its own ref, all of them living in
+        # packed-refs: the rewrites of that one file must not lose each other
+        packed = True
+        init = {n.decode(): rng.randrange(3) for n in (A, B, C_)}
+        while len(pushers) < 2:
+            pushers.append(dict(pushers[0], name=f"p{len(pushers)}"))
+        names = rng.sample([A, B, C_], len(pushers))
+        for pu, n in zip(pushers, names):
+            pu["cmds"] = [{"ref": n.decode(), "old": "adv",
+                           "new": rng.choice(["delete", "delete", "commit"])}]
+            pu["delete_refs_cap"] = True
+            pu["report"] = True
     return {"kind": "push", "seed": seed, "sched": sched, "pushers": pushers,
-            "init": init, "packed_refs": rng.random() < 0.3,
+            "init": init, "packed_refs": packed,
             "net": {"cap": rng.choice([None, None, 65536]),
                     "chunk_max": rng.choice([None, 1, 50, 1000]),
                     "faults": faults}}
